@@ -26,3 +26,30 @@ PROPS["C16"] = {
         ],
     },
 }
+
+PROPS["C01"] = {
+    "pkg": "c01", "level": "exploration",
+    "technique": "property-based testing (rapid): generated (scheme, n, t, signer subset, message, key provenance, delivery schedule) sessions run through the real "
+                 "handlers on a deterministic network simulator; oracle = independent math/big ECDSA / Schnorr / BIP-340 verifiers, equality of all parties' "
+                 "signatures, completion at quiescence",
+    "level_text": "Every generated all-honest signing session (CMP sign, presign+online, presign-full, FROST, FROST-Taproot, Doerner) must complete at every party and "
+                  "return byte-identical signatures that an independent textbook verifier accepts under the dealer-known / reference-derived public key. Random search over "
+                  "configurations and schedules; CMP volumes are small (seconds per session).",
+    "level_note": "Trusts the harness references (self-tested against BIP-340 vectors). Key material mostly from a harness dealer (real keygen/refresh in a minority of cases); "
+                  "pools are nil (single-threaded) so that sessions are deterministic.",
+    "rule": "case = (protocol, n, t, |S|, subset shape, message-length class, key provenance, identifier family, schedule shape); non-trivial iff the signer subset is not a "
+            "sorted prefix/full set, or the message is not 32 bytes, or the key is refreshed/derived, or the schedule reorders/duplicates; distinct = distinct class keys",
+    "assumptions": ["authenticated channels, reliable eventual delivery", "reference verifiers are correct (self-tested)"],
+    "tiers": {
+        "quick": [
+            {"run": "^TestFrost$", "checks": 1600, "shards": 5},
+            {"run": "^TestDoerner$", "checks": 90, "shards": 3},
+            {"run": "^TestCMP$", "checks": 32, "shards": 16, "timeout": 1500},
+        ],
+        "thorough": [
+            {"run": "^TestFrost$", "checks": 60000, "shards": 6},
+            {"run": "^TestDoerner$", "checks": 4000, "shards": 4},
+            {"run": "^TestCMP$", "checks": 640, "shards": 16, "timeout": 7000},
+        ],
+    },
+}
